@@ -1002,3 +1002,764 @@ inline void nul_precision_case(vrt::Rng &r, Values &v, int &shape, ScaleFmt &out
 }
 
 } // namespace fmtref
+
+// ================================================================ history / placement phases of C10 / C11 / C17 ==========
+// "State that survives a call" and "where the data lives" (DESIGN 8.7): user-defined argument types whose formatters call
+// back into the library (two and three of them in one call, recursive ones whose nested calls have the argument signature
+// of the call that is still running, nested calls that throw and are caught inside the formatter), and the placement of a
+// call's format string and text arguments: on the caller's stack right above the library's own frames, behind foreign
+// bytes in the same block at every start alignment, in one buffer that is rewritten in place between calls.  The three
+// harnesses reach all of it through call_shape_x(), which they call where they used to call call_shape(): their monitors
+// are unchanged.  Everything is a pure function of the case index and the case's Rng.
+#include <sstream>
+#include <cstdio>
+#include <cstdlib>
+#include <memory>
+
+#ifdef VRT_HAVE_ASAN
+// read by every instrumented function on entry: non-zero = put the frame on ASan's heap-like "fake stack"
+extern "C" int __asan_option_detect_stack_use_after_return;
+#define FMTREF_NO_ASAN __attribute__((no_sanitize_address))
+#else
+#define FMTREF_NO_ASAN
+#endif
+
+namespace fmtref {
+
+// ---- (5) formatters that call back into the library ----------------------------------------------------------------
+inline S dec(long v)
+{
+    const unsigned long long mag = v < 0 ? 0ull - static_cast<unsigned long long>(v) : static_cast<unsigned long long>(v);
+    return S(v < 0 ? "-" : "") + digits(mag, 10, false);
+}
+// the reference rendering of a whole well-formed call (every argument index in range, no padded {c})
+inline S ref_render(const std::vector<S> &lits, const std::vector<Field> &fields, const std::vector<Arg> &args)
+{
+    S out = literal_output(lits[0]);
+    size_t seq = 0;
+    for (size_t i = 0; i < fields.size(); ++i) {
+        const size_t idx = fields[i].argref > 0 ? static_cast<size_t>(fields[i].argref) - 1 : seq++;
+        S piece;
+        render_field(fields[i], args.at(idx), piece);
+        out += piece;
+        out += literal_output(lits[i + 1]);
+    }
+    return out;
+}
+inline Field mkf(int argref, char align = 0, int padkind = 0, char padc = ' ', int width = 0, int precision = -1, char cls = 0, bool plus = false)
+{
+    Field f = plain_field(argref);
+    f.align = align; f.padkind = padkind; f.padc = padc; f.width = width; f.precision = precision; f.cls = cls; f.plus = plus;
+    return f;
+}
+// the format strings of the nested calls, as data: the formatter passes `text` to the library, the reference renders
+// (lits, fields) over the children's reference texts
+struct NestFmt {
+    std::vector<S> lits;
+    std::vector<Field> fields;
+    S text, text_bad, text_oor;      // ... + a field the parser rejects / a field whose argument index is out of range
+};
+static const int NEST_STYLES = 3;
+inline const NestFmt &nest_fmt(int kind, int style)
+{
+    static std::vector<NestFmt> tab[5];
+    if (tab[1].empty()) {
+        auto add = [&](int k, std::vector<S> lits, std::vector<Field> fields) {
+            NestFmt n;
+            n.lits = lits; n.fields = fields;
+            n.text = lits[0];
+            for (size_t i = 0; i < fields.size(); ++i) { n.text += field_text(fields[i]); n.text += lits[i + 1]; }
+            n.text_bad = n.text + "{z}";
+            n.text_oor = n.text + "{&9}";
+            tab[k].push_back(n);
+        };
+        // one child
+        add(1, {"[", "]"}, {mkf(0)});
+        add(1, {"", "!"}, {mkf(0, '>', 1, '*', 12)});
+        add(1, {"{{", "}}"}, {mkf(0)});
+        add(1, {"", "~"}, {mkf(0, 0, 0, ' ', 0, 5)});                      // (style 3: only over ASCII children)
+        // two children
+        add(2, {"(", " ", ")"}, {mkf(0), mkf(0)});
+        add(2, {"", "<-", ""}, {mkf(2), mkf(1)});
+        add(2, {"", "", "|"}, {mkf(0), mkf(0, '<', 1, '.', 9)});
+        // three children
+        add(3, {"<", ",", ",", ">"}, {mkf(0), mkf(0), mkf(0)});
+        add(3, {"", ".", ".", ""}, {mkf(3), mkf(1), mkf(2)});
+        add(3, {"", "", "", ""}, {mkf(0), mkf(1), mkf(3)});
+        // an int, one child, a C string
+        add(4, {"", "/", "/", ""}, {mkf(0), mkf(0), mkf(0)});
+        add(4, {"", ":", ":", ""}, {mkf(3), mkf(2), mkf(1, 0, 0, ' ', 0, -1, 'x')});
+        add(4, {"", "", ""}, {mkf(0, 0, 0, ' ', 0, -1, 0, true), mkf(2)});
+    }
+    return tab[kind].at(static_cast<size_t>(style));
+}
+
+// A recursive user type: the formatter of a node renders its children with ONE nested library call that takes them as
+// arguments - with `kind` children that call has exactly the argument signature of an outer call that passes `kind` trees
+// (kind 4: an int, a tree, a C string), i.e. the same instantiation of the library's argument machinery is active twice
+// (three, four times) on the thread.  The nested call goes through ST::format, ST::format(validation, ...), ST::writef
+// into a private stream or ST::printf into a private memory file; with `fail` it is preceded by a call with the same
+// arguments whose format string ends in a field that throws (caught inside the formatter).
+struct Tree {
+    ST::string label;
+    long value = 0;
+    int kind = 0;            // 0 leaf; 1, 2, 3 children; 4: (int, child, C string)
+    int style = 0;
+    int mode = 0;            // 0 ST::format, 1 ST::writef(std::ostringstream), 2 ST::printf(memory FILE*), 3 ST::format(ST::substitute_invalid, ...)
+    int fail = 0;            // 1: ST::bad_format first, 2: std::out_of_range first
+    int i = 0;
+    const char *cs = "";
+    std::vector<Tree> kids;
+};
+inline S tree_text(const Tree &t)
+{
+    if (t.kind == 0) return S(t.label.c_str(), t.label.size()) + "=" + dec(t.value);
+    std::vector<Arg> args;
+    if (t.kind == 4) { args.push_back(describe(t.i)); args.push_back(text_arg(tree_text(t.kids.at(0)), "Tree")); args.push_back(describe(t.cs)); }
+    else for (const Tree &k : t.kids) args.push_back(text_arg(tree_text(k), "Tree"));
+    const NestFmt &nf = nest_fmt(t.kind, t.style);
+    return ref_render(nf.lits, nf.fields, args);
+}
+// how many calls with the argument signature of kind k are running on this thread right now
+inline int *reent_active() { static int a[5] = {0, 0, 0, 0, 0}; return a; }
+struct ActiveSig {
+    int k;
+    explicit ActiveSig(int kind) : k(kind) { if (k) ++reent_active()[k]; }
+    ~ActiveSig() { if (k) --reent_active()[k]; }
+};
+struct MemFile {
+    char *mem = nullptr;
+    size_t n = 0;
+    FILE *fp;
+    MemFile() : fp(open_memstream(&mem, &n)) { if (!fp) { fprintf(stderr, "vrt: open_memstream failed\n"); _exit(98); } }
+    S take() { if (fp) { fclose(fp); fp = nullptr; } return S(mem, n); }
+    ~MemFile() { if (fp) fclose(fp); free(mem); }
+};
+// (the arguments are passed on as lvalues, like the harnesses' own sinks do: a nested call over `const Tree &` children
+// instantiates the library for <const Tree &...>, as the outer call over `const Tree &` arguments does)
+template <typename... A>
+inline S nested_call(int mode, const char *f, A &&...a)
+{
+    switch (mode) {
+    case 1: { std::ostringstream os; ST::writef(os, f, a...); static uint64_t &c = vrt::counter("reentrant.nested_call_through_writef"); ++c; return os.str(); }
+    case 2: { MemFile m; ST::printf(m.fp, f, a...); static uint64_t &c = vrt::counter("reentrant.nested_call_through_printf"); ++c; return m.take(); }
+    case 3: { const ST::string s = ST::format(ST::substitute_invalid, f, a...); return S(s.c_str(), s.size()); }
+    default: { const ST::string s = ST::format(f, a...); return S(s.c_str(), s.size()); }
+    }
+}
+template <typename... A>
+inline S tree_nested(const Tree &t, const NestFmt &nf, A &&...a)
+{
+    static uint64_t &calls = vrt::counter("reentrant.nested_calls_of_recursive_formatters");
+    static uint64_t &same = vrt::counter("reentrant.nested_call_with_the_signature_of_a_running_call");
+    static uint64_t &same3 = vrt::counter("reentrant.nested_call_with_the_signature_of_two_or_more_running_calls");
+    static uint64_t &caught = vrt::counter("reentrant.nested_call_threw_and_was_caught_in_the_formatter");
+    ++calls;
+    if (reent_active()[t.kind] >= 1) ++same;
+    if (reent_active()[t.kind] >= 2) ++same3;
+    ActiveSig as(t.kind);
+    if (t.fail) {
+        bool thrown = false;
+        try {
+            (void)nested_call(t.mode, t.fail == 1 ? nf.text_bad.c_str() : nf.text_oor.c_str(), a...);
+        } catch (const ST::bad_format &) { thrown = t.fail == 1;
+        } catch (const std::out_of_range &) { thrown = t.fail == 2; }
+        if (!thrown) return "<the nested call did not throw>";
+        ++caught;
+    }
+    return nested_call(t.mode, nf.text.c_str(), a...);
+}
+inline void format_type(const ST::format_spec &format, ST::format_writer &output, const Tree &t)
+{
+    S inner;
+    if (t.kind == 0) {
+        if (t.mode == 0) { const ST::string s = ST::format("{}={}", t.label, t.value); inner.assign(s.c_str(), s.size()); }
+        else inner = S(t.label.c_str(), t.label.size()) + "=" + dec(t.value);
+    } else {
+        const NestFmt &nf = nest_fmt(t.kind, t.style);
+        switch (t.kind) {
+        case 1: inner = tree_nested(t, nf, t.kids.at(0)); break;
+        case 2: inner = tree_nested(t, nf, t.kids.at(0), t.kids.at(1)); break;
+        case 3: inner = tree_nested(t, nf, t.kids.at(0), t.kids.at(1), t.kids.at(2)); break;
+        default: inner = tree_nested(t, nf, t.i, t.kids.at(0), t.cs); break;
+        }
+    }
+    ST::format_string(format, output, inner.c_str(), inner.size());
+}
+inline Arg describe(const Tree &v) { return text_arg(tree_text(v), "Tree (recursive formatter)"); }
+
+// A formatter whose first nested call throws (caught inside the formatter) and which then carries on with a second one.
+struct Catcher {
+    long a;
+    int what;       // 0: ST::bad_format, 1 and 2: std::out_of_range
+};
+inline S catcher_text(const Catcher &v) { return S(v.what == 0 ? "bad_format" : "out_of_range") + "(" + dec(v.a) + ")"; }
+inline void format_type(const ST::format_spec &format, ST::format_writer &output, const Catcher &v)
+{
+    S inner;
+    try {
+        const ST::string s = v.what == 0 ? ST::format("{}{z}", v.a) : v.what == 1 ? ST::format("{}{}", v.a) : ST::format("{&2}", v.a);
+        inner = "<the nested call did not throw>";
+    } catch (const ST::bad_format &) { inner = "bad_format";
+    } catch (const std::out_of_range &) { inner = "out_of_range"; }
+    static uint64_t &caught = vrt::counter("reentrant.nested_call_threw_and_was_caught_in_the_formatter");
+    ++caught;
+    const ST::string t = ST::format("({})", v.a);
+    inner.append(t.c_str(), t.size());
+    ST::format_string(format, output, inner.c_str(), inner.size());
+}
+inline Arg describe(const Catcher &v) { return text_arg(catcher_text(v), "Catcher (formatter catching a nested failure)"); }
+
+// the values of these types for the current case (the harnesses are single-threaded)
+struct Reent {
+    Nested n1{0, ST::string()}, n2{0, ST::string()}, n3{0, ST::string()};
+    Tree t1, t2, t3, tm;
+    Catcher c1{0, 0}, c2{0, 1};
+};
+inline Reent *&reent_slot() { static Reent own; static Reent *p = &own; return p; }
+inline Reent &reent() { return *reent_slot(); }
+// makes *x the current values for a scope (a prepared call that is executed again later keeps its own)
+struct ReentScope {
+    Reent *saved;
+    explicit ReentScope(Reent *x) : saved(reent_slot()) { reent_slot() = x; }
+    ~ReentScope() { reent_slot() = saved; }
+    ReentScope(const ReentScope &) = delete;
+    ReentScope &operator=(const ReentScope &) = delete;
+};
+
+inline bool all_ascii(const S &s)
+{
+    for (unsigned char c : s) if (c & 0x80) return false;
+    return true;
+}
+inline S reent_label(vrt::Rng &r)
+{
+    S t;
+    const size_t n = r.chance(1, 10) ? 40 + r.below(140) : r.below(9);
+    const bool plain = r.chance(1, 2);
+    for (size_t k = 0; k < n; ++k) ref::enc_utf8(t, (plain || r.chance(3, 4)) ? 'a' + r.below(26) : random_cp(r));
+    return t;
+}
+inline Tree random_tree(vrt::Rng &r, int depth, int main_kind)
+{
+    static const char *const strs[] = {"", "x", "caf\xC3\xA9", "a C string argument of the nested call", "\xF0\x9F\x98\x80"};
+    Tree t;
+    const S lab = reent_label(r);
+    t.label = ST::string::from_validated(lab.data(), lab.size());
+    const unsigned long long m = random_mag(r);
+    t.value = static_cast<long>(r.chance(1, 2) ? m : 0ull - m);
+    t.mode = r.chance(1, 2) ? 0 : static_cast<int>(r.below(4));
+    t.i = static_cast<int>(random_mag(r));
+    t.cs = r.pick(strs);
+    if (depth <= 1) return t;
+    t.kind = r.chance(3, 4) ? main_kind : 1 + static_cast<int>(r.below(4));
+    const int nk = t.kind == 4 ? 1 : t.kind;
+    bool ascii_kids = true;
+    for (int k = 0; k < nk; ++k) {
+        t.kids.push_back(random_tree(r, depth - 1 - (depth > 2 && r.chance(1, 5) ? 1 : 0), main_kind));
+        if (!all_ascii(tree_text(t.kids.back()))) ascii_kids = false;
+    }
+    t.style = static_cast<int>(r.below(t.kind == 1 ? NEST_STYLES + 1 : NEST_STYLES));
+    if (t.kind == 1 && t.style == 3 && !ascii_kids) t.style = 0;          // a precision never cuts inside a character here
+    t.fail = r.chance(1, 5) ? 1 + static_cast<int>(r.below(2)) : 0;
+    return t;
+}
+inline size_t tree_depth(const Tree &t)
+{
+    size_t d = 0;
+    for (const Tree &k : t.kids) d = std::max(d, tree_depth(k));
+    return d + 1;
+}
+
+// call shapes with such arguments
+static const int REENT_SHAPES[] = {300, 301, 302, 303, 304, 305, 306, 307, 308, 48, 49};
+static const int N_REENT_SHAPES = 11;
+inline void random_reent(vrt::Rng &r, int shape)
+{
+    Reent &x = reent();
+    auto nested = [&](Nested &n) {
+        const S b = reent_label(r);
+        n.a = static_cast<long>(random_mag(r));
+        n.b = ST::string::from_validated(b.data(), b.size());
+    };
+    nested(x.n1); nested(x.n2); nested(x.n3);
+    const int main_kind = shape == 302 ? 1 : shape == 303 ? 2 : shape == 304 ? 3 : shape == 305 ? 4 : 1 + static_cast<int>(r.below(4));
+    auto depth = [&]() { return 2 + static_cast<int>(r.below(3)); };
+    x.t1 = random_tree(r, depth(), main_kind);
+    x.t2 = random_tree(r, depth(), main_kind);
+    x.t3 = random_tree(r, r.chance(1, 4) ? 1 : depth(), main_kind);
+    x.tm = random_tree(r, depth(), 4);
+    x.c1 = Catcher{static_cast<long>(random_mag(r)), static_cast<int>(r.below(3))};
+    x.c2 = Catcher{-static_cast<long>(r.below(100000)), static_cast<int>(r.below(3))};
+    const size_t d = std::max(std::max(tree_depth(x.t1), tree_depth(x.t2)), std::max(tree_depth(x.t3), tree_depth(x.tm)));
+    if (d >= 4) vrt::count("reentrant.values_with_a_tree_of_depth_4");
+}
+
+// call_shape() plus the shapes 300.. (arguments from reent())
+template <typename Sink>
+inline void call_shape_r(int shape, const Values &v, const char *fmt, std::vector<Arg> *desc, Sink &&sink)
+{
+    const Reent &x = reent();
+#define SHX(n, kind, ...)                                         \
+    case n:                                                       \
+        if (desc) *desc = describe_all(__VA_ARGS__);              \
+        { ActiveSig running(kind); sink(fmt, __VA_ARGS__); }      \
+        return;
+    switch (shape) {
+        SHX(300, 0, x.n1, x.n2)
+        SHX(301, 0, x.n1, v.i, x.n2, x.n3)
+        SHX(302, 1, x.t1)
+        SHX(303, 2, x.t1, x.t2)
+        SHX(304, 3, x.t1, x.t2, x.t3)
+        SHX(305, 4, v.i, x.tm, v.cstr)
+        SHX(306, 0, x.c1, v.i)
+        SHX(307, 0, v.cstr, x.c1, x.n1, v.st, x.t1, v.l)
+        SHX(308, 0, x.t1, v.i, x.c2, x.t2)
+    default: call_shape(shape, v, fmt, desc, sink); return;
+    }
+#undef SHX
+}
+
+// A format call over such arguments: 1..7 fields that select the arguments sequentially and by &N (so that a nested
+// formatter runs two, three and more times in one call, and other fields follow it), literals with escapes in between.
+// Text that is not ASCII is never cut by a precision (the nested formatters' texts are Text arguments for the reference).
+inline void reentrant_case(vrt::Rng &r, Values &v, int &shape, ScaleFmt &out)
+{
+    random_values(r, v);
+    shape = r.pick(REENT_SHAPES);
+    random_reent(r, shape);
+    std::vector<Arg> args;
+    call_shape_r(shape, v, "", &args, [](const char *, auto &&...) {});
+    const size_t nf = 1 + r.below(r.chance(1, 4) ? 7 : 4);
+    size_t seq = 0;
+    out.lit(random_literal(r));
+    for (size_t k = 0; k < nf; ++k) {
+        Field f = random_field(r, false);
+        if (f.width > 40 && r.chance(3, 4)) f.width = static_cast<int>(1 + r.below(40));
+        if (seq >= args.size() || r.chance(1, 3)) f.argref = static_cast<int>(1 + r.below(args.size()));
+        const size_t idx = f.argref ? static_cast<size_t>(f.argref - 1) : seq++;
+        if (args[idx].kind == Arg::Text && !all_ascii(args[idx].text)) f.precision = -1;
+        if (args[idx].kind == Arg::Char8 && f.cls == 'c' && args[idx].u >= 0x80) f.cls = 0;
+        out.field(f);
+        out.lit(random_literal(r));
+    }
+    // the last field is not a nested one now and then: something the call still has to do after the last nested call returned
+    vrt::count("reentrant.cases");
+    vrt::count(vrt::sfmt("reentrant.shape.%d", shape));
+}
+
+// ---- (6) where the format string and the text arguments of a call live ------------------------------------------------------
+struct Placement {
+    int mode = 0;               // 0 as passed (exact-size heap blocks of the monitors); 1 caller's stack; 2 behind a prefix in the same block; 3 one buffer rewritten in place
+    // mode 1
+    size_t slot = 256;          // bytes per local array
+    int depth = 0;              // trivial frames between the arrays and the call
+    unsigned rot = 0;           // which array is the lowest one (the one next to the callee's frame)
+    // mode 2
+    S prefix;                   // the bytes directly in front of the format string
+    size_t align = 0;           // address of the format string modulo 16 (modes 2 and 3)
+    bool fill_with_prefix = false;
+    // mode 3
+    char *pbase = nullptr;
+    size_t plen = 0, poff = 0;
+};
+inline Placement &placement() { static Placement p; return p; }
+// resets the plan when the case is left (also by an exception)
+struct PlacementScope {
+    PlacementScope() { end(); }
+    ~PlacementScope() { end(); }
+    static void end()
+    {
+        Placement &p = placement();
+        free(p.pbase);
+        p = Placement();
+    }
+};
+
+struct StackNote {
+    const char *lowest = nullptr;       // start of the lowest local array that holds something
+    const char *fmt = nullptr;          // the format string's array (nullptr: it did not fit)
+};
+inline StackNote &stack_note() { static StackNote n; return n; }
+inline void stack_note_callee(const void *frame)
+{
+    StackNote &n = stack_note();
+    auto bucket = [&](const char *what, const char *p) {
+        if (!p) return;
+        const ptrdiff_t d = p - static_cast<const char *>(frame);
+        const char *b = d < 0 ? "below" : d < 512 ? "<512" : d < 1024 ? "<1024" : d < 2048 ? "<2048" : d < 4096 ? "<4096" : d < 16384 ? "<16384" : ">=16384";
+        vrt::count(vrt::sfmt("stack.%s_bytes_above_the_frame_that_calls_the_library:%s", what, b));
+        if (d >= 0 && d < 4096) vrt::count(vrt::sfmt("stack.%s_less_than_4096_bytes_above_the_call", what));
+    };
+    bucket("lowest_array", n.lowest);
+    bucket("format_string", n.fmt);
+}
+struct RealStackScope {        // the frames of the library (and of everything else) entered inside go on the real stack
+    int saved = 0;
+    RealStackScope()
+    {
+#ifdef VRT_HAVE_ASAN
+        saved = __asan_option_detect_stack_use_after_return;
+        __asan_option_detect_stack_use_after_return = 0;
+#endif
+    }
+    ~RealStackScope()
+    {
+#ifdef VRT_HAVE_ASAN
+        __asan_option_detect_stack_use_after_return = saved;
+#endif
+    }
+};
+template <typename F>
+__attribute__((noinline)) FMTREF_NO_ASAN void stack_descend(int depth, F &f)
+{
+    volatile char filler[40];
+    filler[0] = static_cast<char>(depth);
+    if (depth > 0) stack_descend(depth - 1, f);
+    else f();
+    filler[1] = filler[0];
+}
+// The caller's-stack placement: the format string and every pointer / view argument whose text fits are copied into local
+// arrays of this function (not instrumented: its locals are on the machine stack, with nothing between them), and the call
+// is made from here through `depth` trivial frames.  While it runs ASan's fake stack is switched off, so the library's
+// own frames - ST::format's output stream with its in-object buffer - lie on the same stack right below these arrays,
+// which is where they are in a program that is not built with the use-after-return detector.
+template <typename Sink>
+__attribute__((noinline)) FMTREF_NO_ASAN void call_on_stack(int shape, const Values &v, const char *fmt, Sink &sink, const Placement &pl)
+{
+    enum { K = 11 };
+    const size_t slot = (pl.slot + 15) & ~static_cast<size_t>(15);
+    char *pool = static_cast<char *>(__builtin_alloca(K * slot + 16));
+    pool += (16 - reinterpret_cast<uintptr_t>(pool) % 16) % 16;
+    Values w(v);
+    StackNote &sn = stack_note();
+    sn.lowest = nullptr; sn.fmt = nullptr;
+    unsigned j = pl.rot;
+    auto take = [&]() -> char * {
+        char *p = pool + (j++ % K) * slot;
+        if (!sn.lowest || p < sn.lowest) sn.lowest = p;
+        return p;
+    };
+    // a C string of n units (terminator included in the copy) / a view of n units (a non-zero unit behind it)
+    auto cstr = [&](auto *&member) {
+        typedef std::remove_cv_t<std::remove_reference_t<decltype(*member)>> T;
+        if (!member) return;
+        const size_t n = std::char_traits<T>::length(member);
+        if ((n + 1) * sizeof(T) > slot) return;
+        T *p = reinterpret_cast<T *>(take());
+        memcpy(p, member, (n + 1) * sizeof(T));
+        member = p;
+    };
+    auto view = [&](auto &member) {
+        typedef typename std::remove_reference_t<decltype(member)>::value_type T;
+        const size_t n = member.size();
+        if ((n + 1) * sizeof(T) > slot) return;
+        T *p = reinterpret_cast<T *>(take());
+        if (n) memcpy(p, member.data(), n * sizeof(T));
+        p[n] = static_cast<T>('>');
+        member = std::remove_reference_t<decltype(member)>(p, n);
+    };
+    const char *f = fmt;
+    const size_t flen = strlen(fmt);
+    // (the rotation decides which of them gets the lowest array)
+    for (unsigned turn = 0; turn < 11; ++turn) {
+        switch ((turn + pl.rot) % 11) {
+        case 0: if (flen + 1 <= slot) { char *p = take(); memcpy(p, fmt, flen + 1); f = p; sn.fmt = p; } break;
+        case 1: cstr(w.cstr); break;
+        case 2: view(w.sv); break;
+        case 3: cstr(w.u8); break;
+        case 4: view(w.sv8); break;
+        case 5: cstr(w.u16); break;
+        case 6: view(w.sv16); break;
+        case 7: cstr(w.wstr); break;
+        case 8: view(w.wsv); break;
+        case 9: cstr(w.u32); break;
+        default: view(w.sv32); break;
+        }
+    }
+    RealStackScope real_stack;
+    auto noted = [&](const char *fs, auto &&...a) {
+        stack_note_callee(__builtin_frame_address(0));
+        sink(fs, a...);
+    };
+    auto go = [&]() { call_shape_r(shape, w, f, nullptr, noted); };
+    static uint64_t &calls = vrt::counter("stack.calls_with_format_string_and_arguments_in_the_caller's_frame");
+    ++calls;
+    stack_descend(pl.depth, go);
+}
+
+// a block that ends with the format string's terminator and holds `prefix` directly in front of the string
+struct PrefixedFmt {
+    char *base;
+    const char *str;
+    PrefixedFmt(const Placement &pl, const char *fmt)
+    {
+        const size_t len = strlen(fmt);
+        size_t off = pl.prefix.size();
+        while (off % 16 != pl.align % 16) ++off;
+        base = static_cast<char *>(malloc(off + len + 1));
+        if (!base) { fprintf(stderr, "vrt: out of memory\n"); _exit(98); }
+        // (the slack in front of the prefix: a neutral byte, or the prefix over and over, ending where the prefix begins)
+        const size_t ps = pl.prefix.size();
+        for (size_t k = 0; k < off; ++k) base[k] = (pl.fill_with_prefix && ps) ? pl.prefix[(ps - (off - k) % ps) % ps] : '~';
+        memcpy(base + off - ps, pl.prefix.data(), ps);
+        memcpy(base + off, fmt, len + 1);
+        str = base + off;
+    }
+    ~PrefixedFmt() { free(base); }
+    PrefixedFmt(const PrefixedFmt &) = delete;
+    PrefixedFmt &operator=(const PrefixedFmt &) = delete;
+};
+
+// What the harnesses call instead of call_shape(): the same call, with the format string (and for the stack placement the
+// arguments) where the current plan puts them.  Describe-only calls and null format strings pass through.
+template <typename Sink>
+inline void call_shape_x(int shape, const Values &v, const char *fmt, std::vector<Arg> *desc, Sink &&sink)
+{
+    Placement &pl = placement();
+    if (!fmt || desc || pl.mode == 0) { call_shape_r(shape, v, fmt, desc, sink); return; }
+    if (pl.mode == 1) { call_on_stack(shape, v, fmt, sink, pl); return; }
+    if (pl.mode == 2) {
+        PrefixedFmt b(pl, fmt);
+        static uint64_t &c = vrt::counter("alignment.calls_with_a_format_string_behind_foreign_bytes");
+        ++c;
+        call_shape_r(shape, v, b.str, nullptr, sink);
+        return;
+    }
+    // mode 3: one buffer per length, rewritten in place (the block ends with the terminator)
+    const size_t len = strlen(fmt);
+    if (!pl.pbase || pl.plen != len || pl.poff != pl.align % 16) {
+        free(pl.pbase);
+        pl.poff = pl.align % 16;
+        pl.plen = len;
+        pl.pbase = static_cast<char *>(malloc(pl.poff + len + 1));
+        if (!pl.pbase) { fprintf(stderr, "vrt: out of memory\n"); _exit(98); }
+        memset(pl.pbase, '~', pl.poff);
+        pl.pbase[pl.poff] = 0;
+        vrt::count("same_storage.format_string_buffers");
+    }
+    if (memcmp(pl.pbase + pl.poff, fmt, len + 1) != 0) {
+        if (pl.pbase[pl.poff]) vrt::count("same_storage.format_string_rewritten_in_place");
+        memcpy(pl.pbase + pl.poff, fmt, len + 1);
+    }
+    call_shape_r(shape, v, pl.pbase + pl.poff, nullptr, sink);
+}
+
+} // namespace fmtref
+
+namespace fmtref {
+
+// ---- (7) generators for the placement / history phases ---------------------------------------------------------------------
+inline void append_fmt(ScaleFmt &a, const ScaleFmt &b)
+{
+    a.lits.back() += b.lits[0];
+    for (size_t i = 0; i < b.fields.size(); ++i) { a.fields.push_back(b.fields[i]); a.lits.push_back(b.lits[i + 1]); }
+    a.len += b.len;
+}
+// Appends fields, brace escapes, multi-byte characters and plain bytes until the format string is exactly `target` bytes
+// long.  for_sinks: nothing C17's sink rules would have to rewrite (no precision, no {c}).  Sequential fields are used while
+// there are arguments left (and one in `oor` times beyond that: std::out_of_range).
+inline void token_fill(vrt::Rng &r, size_t nargs, size_t target, bool for_sinks, unsigned oor, ScaleFmt &out)
+{
+    size_t seq = 0;
+    for (const Field &f : out.fields) if (!f.argref) ++seq;
+    static const char plain[] = "abcxyzQ 0123456789_.%&\\-+#<>=:";
+    while (out.len < target) {
+        const size_t left = target - out.len;
+        const unsigned what = static_cast<unsigned>(r.below(8));
+        if (what == 0 && nargs) {
+            Field f = small_field(r, nargs);
+            if (for_sinks) { f.precision = -1; if (f.cls == 'c') f.cls = 'd'; }
+            if ((seq < nargs && r.chance(1, 2)) || (oor && r.below(oor) == 0)) f.argref = 0;
+            if (field_text(f).size() <= left) { if (!f.argref) ++seq; out.field(f); continue; }
+        }
+        if (what == 1 && left >= 2) { out.lit(r.chance(1, 2) ? "{{" : "}}"); continue; }
+        if (what == 2 && left >= 4) { out.lit(mb_char(r, 2 + static_cast<unsigned>(r.below(3)))); continue; }
+        if (what == 3 && left >= 2 && nargs && seq < nargs) { out.field(plain_field(0)); ++seq; continue; }
+        out.lit(S(1, plain[r.below(sizeof(plain) - 1)]));
+    }
+}
+
+// K format strings of exactly L bytes (L >= 33) that share their first 16 and last 16 bytes and differ in between: other
+// fields, other escapes, other characters
+inline void same_storage_formats(vrt::Rng &r, size_t nargs, size_t L, size_t K, bool for_sinks, std::vector<ScaleFmt> &out)
+{
+    ScaleFmt head, tail;
+    token_fill(r, nargs, 16, for_sinks, 0, head);
+    token_fill(r, nargs, 16, for_sinks, 0, tail);
+    for (Field &f : tail.fields) if (!f.argref) f.argref = static_cast<int>(1 + r.below(nargs));     // (what a sequential field selects depends on the middle)
+    out.clear();
+    for (size_t k = 0; k < K; ++k) {
+        ScaleFmt f;
+        append_fmt(f, head);
+        token_fill(r, nargs, L - 16, for_sinks, 12, f);
+        append_fmt(f, tail);
+        out.push_back(f);
+    }
+}
+// K texts of exactly n bytes (well-formed UTF-8) that share their first and last 16 bytes (8 when n < 40) and differ in
+// between: ASCII only, two-, three-, four-byte characters, mixed
+inline void same_storage_texts(vrt::Rng &r, size_t n, size_t K, std::vector<S> &out)
+{
+    const size_t e = n >= 40 ? 16 : n >= 20 ? 8 : n / 3;
+    const S head = compose(r, e, r.chance(1, 2) ? BG_ASCII_RANDOM : BG_MIXED), tail = compose(r, e, r.chance(1, 2) ? BG_ASCII_RANDOM : BG_MIXED);
+    static const int bgs[] = {BG_ASCII_RANDOM, BG_TWO, BG_MIXED, BG_THREE, BG_ASCII_CONST, BG_FOUR, BG_MIXED};
+    out.clear();
+    const unsigned first = static_cast<unsigned>(r.below(7));
+    for (size_t k = 0; k < K; ++k) out.push_back(head + compose(r, n - 2 * e, bgs[(first + k) % 7]) + tail);
+}
+
+// Text arguments in caller-side storage that is rewritten in place: one malloc'ed block per argument form (C string with its
+// terminator, view without one; UTF-8, char8_t, UTF-16, UTF-32 / wchar_t), the text ends where the block ends, `align` bytes
+// (whole units) of slack in front.  set() overwrites the blocks whose size is unchanged and replaces the others.
+struct CallerTexts {
+    enum { NB = 10 };
+    void *block[NB];
+    size_t bytes[NB];
+    uint64_t rewritten = 0;
+    CallerTexts() { for (int k = 0; k < NB; ++k) { block[k] = nullptr; bytes[k] = 0; } }
+    ~CallerTexts() { for (int k = 0; k < NB; ++k) free(block[k]); }
+    CallerTexts(const CallerTexts &) = delete;
+    CallerTexts &operator=(const CallerTexts &) = delete;
+    template <typename T>
+    const T *put(int k, const T *src, size_t n, bool nul, size_t align)
+    {
+        const size_t shift = align % (16 / sizeof(T));
+        const size_t want = (shift + n + (nul ? 1 : 0)) * sizeof(T);
+        if (block[k] && bytes[k] == want) ++rewritten;
+        else {
+            free(block[k]);
+            block[k] = malloc(want ? want : 1);
+            if (!block[k]) { fprintf(stderr, "vrt: out of memory\n"); _exit(98); }
+            bytes[k] = want;
+            for (size_t q = 0; q < shift; ++q) static_cast<T *>(block[k])[q] = static_cast<T>('~');
+        }
+        T *p = static_cast<T *>(block[k]) + shift;
+        if (n) memcpy(p, src, n * sizeof(T));
+        if (nul) p[n] = T();
+        return p;
+    }
+    // every text member of v holds t (well-formed UTF-8 without U+0000); the pointer / view members point into the blocks
+    void set(Values &v, const S &t, size_t align)
+    {
+        const uint64_t before = rewritten;
+        set_all_texts(v, t);
+        v.cstr = put(0, t.data(), t.size(), true, align);
+        v.sv = std::string_view(put(1, t.data(), t.size(), false, align), t.size());
+        v.u8 = put(2, v.u8text.data(), v.u8text.size(), true, align);
+        v.sv8 = std::u8string_view(put(3, v.u8text.data(), v.u8text.size(), false, align), v.u8text.size());
+        v.u16 = put(4, v.u16text.data(), v.u16text.size(), true, align);
+        v.sv16 = std::u16string_view(put(5, v.u16text.data(), v.u16text.size(), false, align), v.u16text.size());
+        v.wstr = put(6, v.wtext.data(), v.wtext.size(), true, align);
+        v.wsv = std::wstring_view(put(7, v.wtext.data(), v.wtext.size(), false, align), v.wtext.size());
+        v.u32 = put(8, v.u32text.data(), v.u32text.size(), true, align);
+        v.sv32 = std::u32string_view(put(9, v.u32text.data(), v.u32text.size(), false, align), v.u32text.size());
+        if (rewritten != before) vrt::count("same_storage.argument_buffers_rewritten_in_place", rewritten - before);
+    }
+};
+// the successor of the ST::string argument: the old one (moved into `prev` by the caller) is released and the new one (same
+// size) built right away with every release parked, so that its heap block lands where the old one was (best effort; counted)
+inline void succeed_st(Values &v, ST::string &prev, const S &t)
+{
+    const char *old = prev.size() >= 16 ? prev.c_str() : nullptr;
+    const size_t old_size = prev.size();
+    v.st = ST::string();
+    vrt::placement_force_parks() = 4;
+    prev = ST::string();
+    v.st = ST::string::from_validated(t.data(), t.size());
+    vrt::placement_force_parks() = 0;
+    if (old && old_size == t.size()) {
+        vrt::count("same_storage.ST::string_successors_of_the_same_size");
+        if (v.st.c_str() == old) vrt::count("same_storage.ST::string_heap_block_at_the_address_of_its_predecessor");
+    }
+}
+
+// shapes that pass text through a pointer or a view
+static const int POINTER_TEXT_SHAPES[] = {2, 32, 45, 7, 5, 2, 32, 36, 44, 13, 34, 42, 33, 41, 35, 43, 8, 14, 200, 202};
+inline bool pointer_text_arg(const Arg &a) { return a.kind == Arg::Text && (strchr(a.type, '*') || strstr(a.type, "view")); }
+
+// A call whose format string and pointer / view arguments go on the caller's stack (Placement mode 1), built so that ONE
+// append - a text argument or a literal run of P bytes - takes the output from B <= C to more than C bytes, C one of the
+// capacities an output buffer that starts at 256 bytes and doubles goes through.
+inline void stack_case(uint64_t i, vrt::Rng &r, Values &v, int &shape, ScaleFmt &out, Placement &pl, bool for_sinks)
+{
+    static const size_t slots[] = {64, 256, 1024, 4096, 8192};
+    static const size_t caps[] = {256, 256, 256, 512, 256, 1024, 2048, 256, 4096, 8192};
+    pl.mode = 1;
+    pl.slot = slots[i % 5];
+    pl.depth = static_cast<int>((i / 5) % 4);
+    pl.rot = static_cast<unsigned>(r.below(11));
+    const size_t C = caps[(i / 20) % 10];
+    random_values(r, v);
+    const bool literal_piece = r.chance(1, 3) && pl.slot >= 256;
+    shape = r.pick(POINTER_TEXT_SHAPES);
+    const bool wide = shape == 34 || shape == 42 || shape == 33 || shape == 41 || shape == 35 || shape == 43 || shape == 8 || shape == 14;
+    // the piece: at most what fits an array (a wide argument: its units)
+    size_t pmax = literal_piece ? pl.slot - 40 : wide ? pl.slot / 4 - 1 : pl.slot - 1;
+    size_t P = r.chance(1, 2) ? pmax - r.below(pmax / 4 + 1) : 1 + r.below(pmax);
+    if (r.chance(1, 6)) P = pmax + 1 + r.below(64);                       // ... or just too big for it (stays in the heap)
+    const size_t dmax = std::min(P - 1, C > 256 ? C / 2 - 1 : C);
+    const size_t d = r.chance(1, 3) ? 0 : r.chance(1, 2) ? std::min<size_t>(dmax, 1 + r.below(8)) : r.below(dmax + 1);
+    const size_t B = C - d;
+    const S piece = compose(r, P, (wide || r.chance(1, 2)) ? BG_ASCII_RANDOM : pick_bg(r));
+    if (literal_piece) set_all_texts(v, compose(r, r.below(12), BG_ASCII_RANDOM));
+    else set_all_texts(v, piece);
+    std::vector<Arg> args;
+    call_shape(shape, v, "", &args, [](const char *, auto &&...) {});
+    std::vector<size_t> ptr_args;
+    for (size_t k = 0; k < args.size(); ++k) if (pointer_text_arg(args[k])) ptr_args.push_back(k);
+    const size_t tidx = ptr_args.empty() ? pick_text_arg(r, args, false) : r.pick(ptr_args);
+    // B bytes of output first: a literal, or a field that is all padding (the text argument cut to nothing)
+    const bool lead_by_field = literal_piece || r.chance(1, 2) || B + 16 > pl.slot;
+    if (lead_by_field) {
+        static const char pads[] = {'*', '.', ' ', '-', '0'};
+        out.field(mkf(static_cast<int>(tidx + 1), r.chance(1, 2) ? '<' : '>', 1, r.pick(pads), static_cast<int>(B), 0));
+        if (B == 0) out.fields.back().width = 0, out.fields.back().padkind = 0;
+    } else out.lit(compose(r, B, r.chance(1, 2) ? BG_ASCII_RANDOM : BG_MIXED));
+    if (literal_piece) {
+        if (r.chance(1, 3)) { out.lit(r.chance(1, 2) ? "{{" : "}}"); }   // (one more byte in front: the run begins behind an escape)
+        out.lit(piece);
+        vrt::count("stack.piece_is_a_literal_run");
+    } else {
+        Field f = plain_field(static_cast<int>(tidx + 1));
+        if (r.chance(1, 5)) { dress_text_field(r, f); f.width = static_cast<int>(P + r.below(40)); }
+        out.field(f);
+        vrt::count("stack.piece_is_a_text_argument");
+    }
+    switch (r.below(4)) {
+    case 0: out.lit(random_literal(r)); break;
+    case 1: { Field f = small_field(r, args.size()); if (for_sinks) { f.precision = -1; if (f.cls == 'c') f.cls = 'd'; } out.field(f); break; }
+    case 2: out.lit(compose(r, 1 + r.below(300), BG_MIXED)); break;
+    default: break;
+    }
+    vrt::count("stack.cases");
+    vrt::count(vrt::sfmt("stack.output_crosses_%zu_bytes_in_one_append", C));
+    if (d == 0) vrt::count("stack.output_is_exactly_at_the_capacity_before_the_append");
+    vrt::count(vrt::sfmt("stack.arrays_of_%zu_bytes", pl.slot));
+}
+
+// A format string of 32..~200 bytes whose first brace token begins t bytes (0..16) behind its start, for the placement
+// behind foreign bytes (Placement mode 2).  kind: what the token is.
+inline void alignment_format(uint64_t i, vrt::Rng &r, size_t nargs, bool for_sinks, ScaleFmt &out)
+{
+    static const size_t lens[] = {32, 33, 39, 40, 47, 48, 63, 64, 65, 100, 130, 200};
+    const size_t L = lens[i % 12];
+    const size_t t = (i / 12) % 17;
+    const unsigned kind = static_cast<unsigned>((i / (12 * 17)) % 5);
+    out.lit(compose(r, t, r.chance(1, 2) ? BG_ASCII_RANDOM : BG_MIXED));
+    switch (kind) {
+    case 0: out.lit("{{"); break;
+    case 1: out.lit("}}"); break;
+    case 2: if (nargs) out.field(small_field(r, nargs)); break;
+    case 3: if (nargs) out.field(plain_field(0)); break;
+    default: break;                                                      // no brace at all in front of the filled part
+    }
+    if (for_sinks) for (Field &f : out.fields) { f.precision = -1; if (f.cls == 'c') f.cls = 'd'; }
+    if (kind == 4 && r.chance(1, 2)) out.lit(compose(r, L > out.len ? L - out.len : 0, BG_ASCII_RANDOM));    // a string without any brace
+    else token_fill(r, nargs, std::max(L, out.len), for_sinks, 0, out);
+    vrt::count("alignment.format_strings");
+}
+static const char *const ALIGN_PREFIXES[] = {"{", "}", "{{", "}}", "{}", "}{"};
+static const int N_ALIGN_PREFIXES = 6;
+
+} // namespace fmtref
